@@ -19,6 +19,23 @@ py-level ops
               | "ds" @dataset(callback=...) default | "val" attribute value default | "ext" existing d
   ["impl", [I...], [alias...], [[name, i], ...]]
   ["eval", d, opts]
+
+dispatch datasets: case["disps"][n] = {"key": Q, "map": [[from, to]...]}  body MAP.get(x, x); with
+  "exc": <row id of the exception table>, "form": <XFORMS> the dispatch expression instead *fails* when Q
+  is absent -- with that exception class, raised by user code inside the expression -- where the plain one
+  fails with KeyNotFoundError.  The model knows only "the dispatch evaluation failed" (DispSpec.val on an
+  absent key), so such a case lowers to the same model case and the model's error name is renamed.
+
+Directed family "the dispatch evaluation fails" (every run, both tiers): the exception table `exc_table()`
+(every builtin `Exception` subclass, exceptions produced by genuinely failing code -- unbounded recursion
+inside a lowered recursion limit, 1 // 0, [][0] ... --, user-defined classes, labrea's own classes raised by
+user code) is iterated (a) as model-compared histories (dataset with default / abstract / re-dispatched,
+interface members with and without default) and (b) as *direct* programs (`{"x": {...}}` cases, python-level
+oracle only) for the positions the model's language has no word for: Overloaded, switch, coalesce around an
+abstract dataset, the default of an outer switch, the dispatch of an outer switch, a dataset argument, an
+implementation registered on another dataset -- each over the forms a computed dispatch expression can take
+(dataset, nocache, lift, >>, apply, bind, a dataset over a failing dataset, a >> chain, a pipeline step).
+Oracle: default implementation when there is one, otherwise an EvaluationError (never a bare exception).
 """
 import sys
 from pathlib import Path
@@ -53,6 +70,9 @@ SPEC = PropSpec(
         "dataset that already holds entries is known finding F24 (exercised in a separate stream)",
         "interface_consistent assumes members are not re-dispatched behind the interface's back "
         "(no set_dispatch on a member, a dataset is a member of one interface)",
+        "a dispatch expression that cannot be evaluated fails with an `Exception` subclass (the whole builtin "
+        "hierarchy, user classes, labrea's own: the exception table); BaseException-only classes "
+        "(KeyboardInterrupt, SystemExit, GeneratorExit) propagate by design and are not generated",
     ],
 )
 
@@ -87,7 +107,13 @@ def canon(v):
 
 
 def canon_fp(fp_bytes):
-    items = json.loads(fp_bytes)
+    try:
+        items = json.loads(fp_bytes)
+        if not (isinstance(items, list) and all(isinstance(it, dict) for it in items)):
+            raise ValueError
+    except ValueError:
+        # not the `[{key: value}, ...]` list the model computes: reported as it is (and so as a disagreement)
+        return "!unexpected-fingerprint:" + repr(fp_bytes)[:200]
     out = []
     for it in items:
         for k, v in it.items():
@@ -133,7 +159,138 @@ def to_model(case):
             ops.append(["iface", op[1], op[2], members])
         else:
             ops.append(op)
-    return {"impls": case["impls"], "disps": case["disps"], "ops": ops}
+    # a failing dispatch expression ("exc") is, for the model, a dispatch dataset whose key is absent
+    disps = [{"key": sp["key"], "map": sp["map"]} for sp in case["disps"]]
+    return {"impls": case["impls"], "disps": disps, "ops": ops}
+
+
+# --------------------------------------------------------------------------------------------
+# the exception table: every way user code inside a dispatch expression can fail with an `Exception`
+
+
+def exc_table():
+    """rows {"id", "pre": module-level lines, "body": lines of a function that always fails,
+    "errname": what ERRNAME reports for the root cause}.  "@SRC@" in a body line stands for the
+    dispatch expression itself.  BaseException-only classes (KeyboardInterrupt, SystemExit,
+    GeneratorExit, BaseExceptionGroup) are not `Exception`s, propagate by design and are not listed."""
+    import builtins
+    rows = []
+
+    def row(id_, body, errname=None, pre=()):
+        rows.append({"id": id_, "pre": list(pre), "body": list(body), "errname": errname or id_.split("/")[0]})
+
+    # 1. every builtin Exception subclass, raised directly (constructor arguments where "x" will not do)
+    ctor = {
+        "UnicodeDecodeError": 'UnicodeDecodeError("utf-8", b"\\xff", 0, 1, "invalid start byte")',
+        "UnicodeEncodeError": 'UnicodeEncodeError("ascii", "\\xff", 0, 1, "ordinal not in range(128)")',
+        "UnicodeTranslateError": 'UnicodeTranslateError("\\xff", 0, 1, "character maps to <undefined>")',
+        "ExceptionGroup": 'ExceptionGroup("several", [ValueError("a"), KeyError("b"), RecursionError("c")])',
+        "OSError": 'OSError(5, "Input/output error")',
+        "FileNotFoundError": 'FileNotFoundError(2, "No such file or directory", "/nonexistent/c07")',
+        "TimeoutError": 'TimeoutError(110, "Connection timed out")',
+        "ImportError": 'ImportError("cannot import name", name="nope", path="/nonexistent/c07.py")',
+        "SyntaxError": 'SyntaxError("invalid syntax", ("<c07>", 1, 2, "a b\\n"))',
+        "StopIteration": 'StopIteration(("carried", "value"))',
+        "KeyError": 'KeyError(("tuple", "key"))',
+        "MemoryError": "MemoryError()",
+        "AssertionError": "AssertionError()",
+    }
+    for n in sorted(dir(builtins)):
+        c = getattr(builtins, n)
+        if isinstance(c, type) and issubclass(c, Exception) and c.__name__ == n:   # (skips the OSError aliases)
+            row(n, ["raise " + ctor.get(n, '%s("x")' % n)])
+    # 2. produced by code that genuinely fails
+    unb = ["def _unbounded(n):", "    return _unbounded(n + 1) + 1"]
+    row("RecursionError/unbounded-recursion-lowered-limit",
+        ["_old = sys.getrecursionlimit()", "sys.setrecursionlimit(DEPTH() + 64)", "try:",
+         "    return _unbounded(0)", "finally:", "    sys.setrecursionlimit(_old)"], pre=unb)
+    row("RecursionError/unbounded-recursion", ["return _unbounded(0)"], pre=unb)
+    row("ZeroDivisionError/1//0", ["return 1 // 0"])
+    row("OverflowError/math.exp", ["import math", "return math.exp(100000)"])
+    row("IndexError/[][0]", ["return [][0]"])
+    row("KeyError/{}[k]", ["return {}['k']"])
+    row("AttributeError/None.attr", ["return None.no_such_attribute"])
+    row("TypeError/1+str", ["return 1 + 'a'"])
+    row("ValueError/int(str)", ["return int('a')"])
+    row("NameError/undefined-name", ["return _c07_undefined_name_"])
+    row("UnboundLocalError/local", ["if sys is None:", "    loc = 1", "return loc"])
+    row("FileNotFoundError/open", ["return open('/nonexistent/c07/file').read()"])
+    row("UnicodeDecodeError/bytes.decode", ["return b'\\xff'.decode('utf-8')"])
+    row("ModuleNotFoundError/import", ["import _c07_no_such_module_", "return 0"])
+    row("AssertionError/assert", ["assert sys is None, 'never'", "return 0"])
+    row("StopIteration/next", ["return next(iter(()))"])
+    row("LookupError/codecs.lookup", ["import codecs", "return codecs.lookup('c07-no-such-codec')"])
+    # (python chains the RuntimeError to the StopIteration: that is the root cause ERRNAME reports)
+    row("RuntimeError/generator-raised-StopIteration", ["return list(_gen_stop())"], "StopIteration",
+        pre=["def _gen_stop():", "    yield 1", "    raise StopIteration"])
+    # 3. user-defined classes
+    row("_UserError", ["raise _UserError(3, detail='d')"],
+        pre=["class _UserError(Exception):", "    def __init__(self, code, *, detail):",
+             "        super().__init__()", "        self.code, self.detail = code, detail",
+             "    def __str__(self):", "        return 'user error %d' % self.code"])
+    row("_UserRecursionError", ["raise _UserRecursionError('x')"],
+        pre=["class _UserRecursionError(RecursionError):", "    pass"])
+    row("_UserMemoryError", ["raise _UserMemoryError()"], pre=["class _UserMemoryError(MemoryError):", "    pass"])
+    row("_UserGroup", ["raise _UserGroup('g', [OSError(5, 'io'), _UserGroup('h', [MemoryError()])])"],
+        pre=["class _UserGroup(ExceptionGroup):", "    pass"])
+    # 4. labrea's own classes raised by user code (a foreign source / the dispatch expression as source)
+    row("labrea.EvaluationError", ["raise EvaluationError('user', Value(0))"], "EvaluationError")
+    row("labrea.EvaluationError/own-source", ["raise EvaluationError('user', @SRC@)"], "EvaluationError")
+    row("labrea.EvaluationError/from-RecursionError",
+        ["raise EvaluationError('user', Value(0)) from RecursionError('inner')"], "RecursionError")
+    row("labrea.KeyNotFoundError", ["raise KeyNotFoundError('ZK', Value(0))"], "KeyNotFoundError:ZK")
+    row("labrea.KeyNotFoundError/own-source", ["raise KeyNotFoundError('ZK', @SRC@)"], "KeyNotFoundError:ZK")
+    row("labrea.InsufficientInformationError", ["raise InsufficientInformationError('user', Value(0))"],
+        "InsufficientInformationError")
+    row("labrea.SwitchError", ["raise SwitchError(Value(0), 'v', {'a': 1})"], "SwitchError")
+    row("labrea.CaseWhenError", ["raise CaseWhenError(Value(0), 'v')"], "CaseWhenError")
+    row("labrea.EvaluationError/user-subclass", ["raise _UserEvaluationError()"], "_UserEvaluationError",
+        pre=["class _UserEvaluationError(EvaluationError):", "    def __init__(self):",
+             "        super().__init__('user', Value(None))"])
+    return rows
+
+
+EXC_ROWS = exc_table()
+EXC = {r["id"]: r for r in EXC_ROWS}
+assert len(EXC) == len(EXC_ROWS)
+
+# the forms a computed dispatch expression takes
+XFORMS = ["dataset", "nocache", "lift", "pipe", "apply", "bind", "bind-lazy", "deep", "chain", "step"]
+
+
+def xdisp_lines(name, n, key, mp, row, form, trig="absent"):
+    """lines defining `name`: a dispatch expression over option `key` that evaluates to MAP.get(x, x) and
+    fails -- with the exception of `row`, inside user code -- when triggered (key absent / key == 'boom')"""
+    opt = "Option(%r, None)" % key if trig == "absent" else "Option(%r)" % key
+    cond = "x is None" if trig == "absent" else "x == 'boom'"
+    ls = ["def _boom%d():" % n] + ["    " + b.replace("@SRC@", "_SRC[%d]" % n) for b in row["body"]]
+    ls += ["def _g%d(x):" % n, "    if %s:" % cond, "        return _boom%d()" % n, "    return %s.get(x, x)" % mp]
+    if form == "dataset":
+        ls += ["@dataset", "def %s(x=%s):" % (name, opt), "    return _g%d(x)" % n]
+    elif form == "nocache":
+        ls += ["@dataset.nocache", "def %s(x=%s):" % (name, opt), "    return _g%d(x)" % n]
+    elif form == "lift":
+        ls += ["def _h%d(x=%s):" % (n, opt), "    return _g%d(x)" % n, "%s = FunctionApplication.lift(_h%d)" % (name, n)]
+    elif form == "pipe":
+        ls += ["%s = %s >> _g%d" % (name, opt, n)]
+    elif form == "apply":
+        ls += ["%s = %s.apply(Value(_g%d))" % (name, opt, n)]
+    elif form == "bind":
+        ls += ["%s = %s.bind(lambda x: Value(_g%d(x)))" % (name, opt, n)]
+    elif form == "bind-lazy":
+        ls += ["%s = %s.bind(lambda x: Value(x) >> _g%d)" % (name, opt, n)]
+    elif form == "deep":
+        ls += ["@dataset", "def _inner%d(x=%s):" % (n, opt), "    return _g%d(x)" % n,
+               "@dataset", "def %s(y=_inner%d):" % (name, n), "    return y"]
+    elif form == "chain":
+        ls += ["%s = %s >> _g%d >> (lambda y: y)" % (name, opt, n)]
+    elif form == "step":
+        ls += ["@pipeline_step", "def _step%d(x, unused=Option('UNUSED', 0)):" % n, "    return _g%d(x)" % n,
+               "%s = %s >> _step%d" % (name, opt, n)]
+    else:
+        raise ValueError(form)
+    ls += ["_SRC[%d] = %s" % (n, name)]
+    return ls
 
 
 # --------------------------------------------------------------------------------------------
@@ -373,6 +530,11 @@ class Gen:
     def program(self):
         for n, sp in enumerate(self.case["disps"]):
             mp = "{" + ", ".join("%s: %s" % (py(f), py(t)) for f, t in sp["map"]) + "}"
+            if sp.get("exc") is not None:
+                row = EXC[sp["exc"]]
+                self.emit(*row["pre"])
+                self.emit(*xdisp_lines("dd%d" % n, n, sp["key"], mp, row, sp.get("form", "dataset")))
+                continue
             self.emit("@dataset", "def dd%d(x=Option(%r)):" % (n, sp["key"]), "    return %s.get(x, x)" % mp)
         cbs = set()
         for op in self.case["ops"]:
@@ -455,6 +617,8 @@ def ref_dispatch(case, disp, o):
     if k == "ds":
         sp = case["disps"][disp[1]]
         if sp["key"] not in o:
+            if sp.get("exc") is not None:      # the expression itself fails, in user code
+                return ("undet", EXC[sp["exc"]]["errname"])
             return ("undet", "KeyNotFoundError:" + sp["key"])
         x = o[sp["key"]]
         for f, t in sp["map"]:
@@ -553,13 +717,23 @@ class Ref:
 
 
 RUNTIME_SRC = r'''
+import sys
 from labrea import dataset, abstractdataset, Option, interface, implements
+from labrea import Overloaded, switch, coalesce, pipeline_step
 from labrea.types import Value
 from labrea.cache import MemoryCache
 from labrea.application import FunctionApplication
-from labrea.exceptions import KeyNotFoundError
-from labrea.conditional import SwitchError
+from labrea.exceptions import EvaluationError, KeyNotFoundError, InsufficientInformationError
+from labrea.conditional import SwitchError, CaseWhenError
 from labrea.dataset import Dataset
+
+_SRC = {}
+
+def DEPTH():
+    n, f = 0, sys._getframe()
+    while f is not None:
+        n, f = n + 1, f.f_back
+    return n
 
 class LogCache(MemoryCache):
     def __init__(self, name):
@@ -656,6 +830,9 @@ def run_case(case, want_src=False):
             err = None
         except Exception as e:  # noqa: BLE001
             v, err = None, ns["ERRNAME"](e)
+            if not isinstance(e, ns["EvaluationError"]):
+                # "fails ... if it is abstract": with an evaluation error, whatever made the dispatch fail
+                fail(k, "bare-exception", observed=type(e).__name__, expected="an EvaluationError")
         ev = cache.events[n0:]
         dv, impl, selerr = ref.select(d, o)
         # expected cold value: callback applied to the selected implementation evaluated directly
@@ -723,11 +900,15 @@ def run_case(case, want_src=False):
 
     ns.update(EVAL=EVAL, CHECK_SNAP=CHECK_SNAP)
     crash = None
+    limit0 = sys.getrecursionlimit()
     try:
         exec(compile(src, "<case>", "exec"), ns)
     except Exception as e:  # noqa: BLE001
         crash = "%s: %s (at op %d)" % (type(e).__name__, str(e)[:200], OPIDX[0])
         OBS.append("HARNESS-CRASH " + crash)
+    if sys.getrecursionlimit() != limit0 and not crash:
+        crash = "recursion limit left at %d (was %d)" % (sys.getrecursionlimit(), limit0)
+        sys.setrecursionlimit(limit0)
     # definitions whose outcome the reference predicts
     ref.advance(len(case["ops"]))
     res = {"obs": " | ".join(OBS), "fails": fails}
@@ -742,6 +923,131 @@ def canon_dv(dv):
     return "undet" if dv[0] == "undet" else canon(dv[1] if dv[1] is not _Missing else _Missing())
 
 
+# --------------------------------------------------------------------------------------------
+# direct programs: the failing dispatch expression at the positions the model's language cannot name
+
+XPOS = ["dataset", "dataset-setd", "overloaded", "switch", "iface", "in-coalesce", "in-switch-default",
+        "as-switch-dispatch", "in-dataset-arg", "nested-impl"]
+XTRIG = ["absent", "value"]
+
+
+def xtarget_lines(k, pos, dflt):
+    """lines defining T<k>: the failing dispatch expression dd0 at position `pos`"""
+    T, inner = "T%d" % k, "inner%d" % k
+    ls = []
+    if pos in ("overloaded", "switch"):
+        ctor = "Overloaded" if pos == "overloaded" else "switch"
+        ls += ["def _dflt%d(a=Option('A', 5)):" % k, "    return ('dflt', a)"]
+        ls += ["%s = %s(dd0, {'x': Value(('ix',))}%s)"
+               % (T, ctor, ", FunctionApplication.lift(_dflt%d)" % k if dflt else "")]
+        return ls
+    if pos == "iface":
+        return ["@interface(dd0)", "class I%d:" % k, "    a: int", "    @dataset", "    def b(p=Option('A', 5)):",
+                "        return ('dflt', p)",
+                "@I%d.implementation('x')" % k, "class C%d:" % k, "    a = ('ix',)", "    b = ('ix',)",
+                "%s = I%d.%s" % (T, k, "b" if dflt else "a")]
+    kw = "dispatch='K'" if pos == "dataset-setd" else "dispatch=dd0"
+    if dflt:
+        ls += ["@dataset(%s)" % kw, "def %s(a=Option('A', 5)):" % inner, "    return ('dflt', a)"]
+    else:
+        ls += ["@abstractdataset(%s)" % kw, "def %s():" % inner, "    pass"]
+    ls += ["@%s.overload('x')" % inner, "def %s_x():" % inner, "    return ('ix',)"]
+    if pos == "dataset-setd":
+        ls += ["%s.set_dispatch(dd0)" % inner]
+    if pos in ("dataset", "dataset-setd"):
+        ls += ["%s = %s" % (T, inner)]
+    elif pos == "in-coalesce":
+        ls += ["%s = coalesce(%s, Value('fallback'))" % (T, inner)]
+    elif pos == "in-switch-default":
+        ls += ["%s = switch('K0', {'a': Value('never')}, %s)" % (T, inner)]
+    elif pos == "as-switch-dispatch":
+        ls += ["%s = switch(%s, {('ix',): Value('sel-x'), ('dflt', 5): Value('sel-5'), "
+               "('dflt', 7): Value('sel-7')}, Value('outer-default'))" % (T, inner)]
+    elif pos == "in-dataset-arg":
+        ls += ["@dataset", "def %s(v=%s):" % (T, inner), "    return ('wrap', v)"]
+    elif pos == "nested-impl":
+        ls += ["@dataset(dispatch='K0')", "def %s():" % T, "    return ('outer-dflt',)",
+               "%s.register('n', %s)" % (T, inner)]
+    else:
+        raise ValueError(pos)
+    return ls
+
+
+def xprogram(xc):
+    """-> (source defining T0..Tn, [(target, label, options, expected)]) for the direct case xc =
+    {"exc": row id, "form": XFORMS, "trig": XTRIG, "targets": [[XPOS, with default?, all evaluations?]...]};
+    every target dispatches on the one failing expression dd0 (option QX).
+    expected = ["val", canonical value] | ["err", root error name] (then it must be an EvaluationError)"""
+    row, trig = EXC[xc["exc"]], xc["trig"]
+    ls = list(row["pre"]) + xdisp_lines("dd0", 0, "QX", "{'r': 'x'}", row, xc["form"], trig)
+    trig_o = {} if trig == "absent" else {"QX": "boom"}
+    evals = []
+    for k, (pos, dflt, full) in enumerate(xc["targets"]):
+        ls += xtarget_lines(k, pos, dflt)
+        base = {"K0": "n"} if pos == "nested-impl" else {}
+        # the selection, read off the property: registered -> 'ix'; otherwise the default, or a failure
+        d5, d7 = (("dflt", 5), ("dflt", 7)) if dflt else (None, None)
+        sel = [("dispatch-fails", trig_o, d5, row["errname"])]
+        if full:
+            sel = [("registered", {"QX": "x"}, ("ix",), None), ("registered-mapped", {"QX": "r"}, ("ix",), None),
+                   ("unregistered", {"QX": "u"}, d5, "SwitchError")] + sel + \
+                  [("dispatch-fails-again", trig_o, d5, row["errname"]),
+                   ("dispatch-fails-A", dict(trig_o, A=7), d7, row["errname"])]
+            if trig == "value":
+                sel.append(("dispatch-key-absent", {}, d5, "KeyNotFoundError:QX"))
+        for label, o, v, err in sel:
+            if pos == "in-coalesce":
+                exp = ["val", canon(v if v is not None else "fallback")]
+            elif pos == "as-switch-dispatch":
+                exp = ["val", canon({("ix",): "sel-x", ("dflt", 5): "sel-5", ("dflt", 7): "sel-7",
+                                     None: "outer-default"}[v])]
+            elif v is None:
+                exp = ["err", err]
+            else:
+                exp = ["val", canon(("wrap", v) if pos == "in-dataset-arg" else v)]
+            evals.append((k, label, dict(base, **o), exp))
+    return "\n".join(ls) + "\n", evals
+
+
+def run_xcase(xc, want_src=False):
+    src, evals = xprogram(xc)
+    ns = {"re": re}
+    exec(RUNTIME_SRC, ns)
+    limit0 = sys.getrecursionlimit()
+    fails, obs, outs = [], [], []
+    crash = None
+    try:
+        exec(compile(src, "<direct case>", "exec"), ns)
+    except Exception as e:  # noqa: BLE001
+        crash = "%s: %s (building the program)" % (type(e).__name__, str(e)[:200])
+    if not crash:
+        for n, (k, label, o, exp) in enumerate(evals):
+            where = dict(op=n, target=k, pos=xc["targets"][k][0], dflt=xc["targets"][k][1], eval=label, options=o)
+            try:
+                got = ["val", canon(ns["T%d" % k].evaluate(o))]
+            except Exception as e:  # noqa: BLE001
+                got = ["err", ns["ERRNAME"](e)]
+                if not isinstance(e, ns["EvaluationError"]):
+                    fails.append(dict(where, kind="bare-exception", observed=type(e).__name__,
+                                      expected="an EvaluationError" if exp[0] == "err" else exp))
+            if got != exp:
+                kind = "wrong-value" if got[0] == "val" else "wrong-failure"
+                fails.append(dict(where, kind=kind, observed=got, expected=exp))
+            obs.append("T%d %s:%s=%s" % (k, label, got[0], got[1]))
+            outs.append([k, label, got[0]])
+        if sys.getrecursionlimit() != limit0:
+            crash = "recursion limit left at %d (was %d)" % (sys.getrecursionlimit(), limit0)
+            sys.setrecursionlimit(limit0)
+    res = {"obs": " | ".join(obs), "fails": fails, "outs": outs}
+    if crash:
+        res["crash"] = crash
+        res["obs"] = "HARNESS-CRASH " + crash
+    if want_src:
+        res["src"] = src
+        res["evals"] = [list(e) for e in evals]
+    return res
+
+
 def runner_main():
     want_src = "--src" in sys.argv
     for line in sys.stdin:
@@ -750,7 +1056,7 @@ def runner_main():
             continue
         case = json.loads(line)
         try:
-            res = run_case(case, want_src)
+            res = run_xcase(case["x"], want_src) if "x" in case else run_case(case, want_src)
         except Exception as e:  # noqa: BLE001
             res = {"obs": "HARNESS-CRASH %s: %s" % (type(e).__name__, str(e)[:300]), "fails": [],
                    "crash": "%s: %s" % (type(e).__name__, str(e)[:300])}
@@ -776,11 +1082,28 @@ def run_impl(cases, want_src=False):
     return out
 
 
+def run_impl_chunks(cases, nproc):
+    """run_impl on `nproc` contiguous chunks at once (results in the order of `cases`)"""
+    from concurrent.futures import ThreadPoolExecutor
+    size = max(1, -(-len(cases) // nproc))
+    chunks = [cases[i:i + size] for i in range(0, len(cases), size)]
+    with ThreadPoolExecutor(max_workers=max(1, len(chunks))) as pool:
+        return [r for rs in pool.map(run_impl, chunks) for r in rs]
+
+
 def run_model(cases):
     lines = run_driver("drv_iface", [json.dumps(to_model(c)) for c in cases])
     if len(lines) != len(cases):
         raise Infra("drv_iface produced %d lines for %d cases" % (len(lines), len(cases)))
-    return lines
+    # the model's "the dispatch evaluation failed" is a missing key; a failing dispatch expression fails
+    # with its own root cause instead (nothing else reads that key: see exc_model_case)
+    out = []
+    for c, line in zip(cases, lines):
+        for sp in c["disps"]:
+            if sp.get("exc") is not None:
+                line = line.replace("err=KeyNotFoundError:%s" % sp["key"], "err=" + EXC[sp["exc"]]["errname"])
+        out.append(line)
+    return out
 
 
 # --------------------------------------------------------------------------------------------
@@ -1094,6 +1417,17 @@ def corpus():
         ["eval", 0, {"K": "k1"}], ["eval", 1, {"K": "k1"}], ["eval", 0, {"K": "k2"}], ["eval", 1, {"K": "k2"}],
         ["impl", [0], ["k3"], [["a", 1], ["b", 2]]], ["eval", 0, {"K": "k3"}], ["eval", 1, {"K": "k3"}],
         ["eval", 1, {"K": "k1"}]]})
+    # 9 dispatch values whose TEXT coincides but which are different values (1 / "1", True / "True", None / "None") on
+    #   one long-lived cache: each selects its own implementation (or the default), whatever was evaluated before
+    cs.append({"impls": [L("dflt"), L("int1"), L("str1"), L("strTrue")], "disps": DISPS, "ops": [
+        ["new", 0, ["key", "K"], 0, None], ["reg", 0, 1, 1], ["reg", 0, "1", 2], ["reg", 0, "True", 3],
+        ["eval", 0, {"K": 1}], ["eval", 0, {"K": "1"}], ["eval", 0, {"K": 1}], ["eval", 0, {"K": True}],
+        ["eval", 0, {"K": "True"}], ["eval", 0, {"K": None}], ["eval", 0, {"K": "None"}], ["eval", 0, {"K": "1"}],
+        ["eval", 0, {"K": 0}], ["eval", 0, {"K": "0"}], ["eval", 0, {"K": False}], ["eval", 0, {"K": "False"}]]})
+    cs.append({"impls": [L("dflt"), L("strNone"), L("none")], "disps": DISPS, "ops": [
+        ["new", 0, ["key", "K"], 0, 2], ["reg", 0, "None", 1], ["reg", 0, None, 2],
+        ["eval", 0, {"K": "None"}], ["eval", 0, {"K": None}], ["eval", 0, {"K": "None"}], ["eval", 0, {}],
+        ["eval", 0, {"K": ""}], ["eval", 0, {"K": "x"}]]})
     return cs
 
 
@@ -1129,6 +1463,65 @@ def trigger_random(rng, n):
         for _k in range(rng.randint(1, 4)):
             g.ops.append(["eval", 0, rng.choice(opts)])
         cs.append({"impls": g.impls, "disps": DISPS, "ops": g.ops})
+    return cs
+
+
+def exc_model_case(row, form, thorough=True):
+    """the directed history for one row of the exception table: every dataset dispatches on the failing
+    expression dd1 (option QX, read by nothing else); {} and {"A": 1} make the dispatch fail"""
+    A = ("A", {"d": "a0"})
+    impls = [L("dflt", [A]), L("ix"), L("m_b", [A]), L("m_c"), L("ia"), L("ib"), L("s_d", [A]), L("late")]
+    disps = [DISPS[0], {"key": "QX", "map": [["r", "x"]], "exc": row["id"], "form": form}]
+    X = ["ds", 1]
+    ops = [["new", 0, X, 0, 1],                                     # default implementation, callback
+           ["new", 1, X, None, None],                               # abstract
+           ["new", 2, ["key", "K"], 6, None], ["setd", 2, X],       # re-dispatched (before any evaluation)
+           ["reg", 0, "x", 1], ["reg", 1, "x", 1], ["ovl", [[2, ["x"]]], 1],
+           ["iface", 0, X, [["a", 3, "ann", None, None], ["b", 4, "fn", 2, None], ["c", 5, "ds", 3, 7]]],
+           ["impl", [0], ["x"], [["a", 4], ["b", 5]]]]
+    if thorough:
+        for d in range(6):
+            ops += [["eval", d, {}], ["eval", d, {"QX": "x"}], ["eval", d, {"A": 1}], ["eval", d, {"QX": "u"}],
+                    ["eval", d, {}]]
+    else:   # (every evaluation costs three: the fresh reference object, the members' alias check)
+        ops += [["eval", 0, {}], ["eval", 0, {"QX": "x"}], ["eval", 0, {"A": 1}], ["eval", 0, {}],
+                ["eval", 1, {}], ["eval", 1, {"QX": "x"}], ["eval", 2, {}], ["eval", 2, {"A": 1}],
+                ["eval", 3, {}], ["eval", 3, {"QX": "x"}], ["eval", 4, {"A": 1}], ["eval", 4, {}], ["eval", 5, {}]]
+    # a later registration applies to the determinable values only
+    ops += [["reg", 0, "u", 7], ["eval", 0, {"QX": "u"}], ["eval", 0, {}]]
+    if thorough:
+        ops += [["eval", 1, {"QX": "r"}], ["eval", 1, {"A": 2}]]
+    return {"impls": impls, "disps": disps, "ops": ops, "xrow": row["id"]}
+
+
+def exc_model_cases(seed, thorough):
+    cs = []
+    for i, row in enumerate(EXC_ROWS):
+        forms = XFORMS if thorough else [XFORMS[(seed + i) % len(XFORMS)]]
+        cs += [exc_model_case(row, f, thorough) for f in forms]
+    return cs
+
+
+def exc_direct_cases(seed, thorough):
+    """every row x every position x with/without default, all dispatching on the row's failing expression.
+    quick: the 20 targets of a row are dealt to 4 programs whose (form, trigger) rotate with the row and the
+    seed, one target per row gets the whole evaluation list (the others only the failing dispatch);
+    thorough: one program per (form, trigger) with all 20 targets, 4 of them with the whole list."""
+    cs = []
+    combos = [(f, t) for f in XFORMS for t in XTRIG]
+    targets = [(pos, dflt) for pos in XPOS for dflt in (True, False)]
+    for i, row in enumerate(EXC_ROWS):
+        if thorough:
+            for j, (f, t) in enumerate(combos):
+                tg = [[pos, dflt, (k + i + j + seed) % 5 == 0] for k, (pos, dflt) in enumerate(targets)]
+                cs.append({"x": {"exc": row["id"], "form": f, "trig": t, "targets": tg}})
+        else:
+            for g in range(4):
+                f, t = combos[(seed + 7 * i + 3 * g) % len(combos)]
+                mine = [(pos, dflt) for k, (pos, dflt) in enumerate(targets) if (k + i) % 4 == g]
+                tg = [[pos, dflt, g == (seed + i) % 4 and k == (seed + i // 4) % len(mine)]
+                      for k, (pos, dflt) in enumerate(mine)]
+                cs.append({"x": {"exc": row["id"], "form": f, "trig": t, "targets": tg}})
     return cs
 
 
@@ -1286,12 +1679,73 @@ def is_nontrivial(case):
     return False
 
 
-def sweep(cases, stream, findings, stats, max_findings=4):
+def new_stats():
+    return {"programs": 0, "evaluations": 0, "compared": 0, "ops": {}, "sizes": {}, "obs": {}, "known_seen": 0,
+            "more_failures_not_shrunk": 0}
+
+
+def per_class_entry(per, rid):
+    return per.setdefault(rid, {"programs": 0, "evaluations": 0, "failing_dispatch_evaluations": 0,
+                                "default_used": 0, "evaluation_error": 0, "oracle_failures": 0})
+
+
+def sweep_direct(cases, results, findings, stats, per, dist, max_findings=4):
+    """the direct programs of the dispatch-failure family: python-level oracle only"""
+    nfound = 0
+    for case, res in zip(cases, results):
+        xc = case["x"]
+        if res.get("crash"):
+            raise Infra("C07 harness crash on %s: %s" % (json.dumps(case), res["crash"]))
+        stats["programs"] += 1
+        e = per_class_entry(per, xc["exc"])
+        e["programs"] += 1
+        dist["form"][xc["form"]] = dist["form"].get(xc["form"], 0) + 1
+        dist["trig"][xc["trig"]] = dist["trig"].get(xc["trig"], 0) + 1
+        for pos, dflt, full in xc["targets"]:
+            key = pos + (" (default)" if dflt else " (abstract)")
+            dist["pos"][key] = dist["pos"].get(key, 0) + 1
+        bad_ops = {f["op"] for f in res["fails"]}
+        for n, (k, label, kind) in enumerate(res["outs"]):
+            stats["evaluations"] += 1
+            e["evaluations"] += 1
+            if label.startswith("dispatch-"):
+                e["failing_dispatch_evaluations"] += 1
+                if n not in bad_ops:
+                    # (for the coalesce / outer-switch positions the "default" is the enclosing fallback)
+                    e["default_used" if kind == "val" else "evaluation_error"] += 1
+        if res["fails"]:
+            e["oracle_failures"] += 1
+            stats["oracle_failures"] = stats.get("oracle_failures", 0) + 1
+            if nfound < max_findings:
+                nfound += 1
+                # the replay is the program with the one target of the first failure, when that fails alone
+                k = res["fails"][0]["target"]
+                small = {"x": dict(xc, targets=[xc["targets"][k]])}
+                (r2,) = run_impl([small])
+                if not r2["fails"]:
+                    small = case
+                    (r2,) = run_impl([small])
+                    if not r2["fails"]:
+                        raise Infra("C07: an oracle failure seen in a batch does not reproduce in isolation: "
+                                    + json.dumps(case))
+                f0 = r2["fails"][0]
+                findings.append(Finding(
+                    "failing-input",
+                    "property oracle failed on labrea: %s at evaluation '%s' (dispatch expression failing with %s, "
+                    "%s form; position %s, %s)" % (f0["kind"], f0["eval"], xc["exc"], xc["form"], f0["pos"],
+                                                   "with a default" if f0["dflt"] else "abstract"),
+                    {"case": small, "impl_obs": r2["obs"], "fails": r2["fails"], "stream": "dispatch-failure-direct"}))
+
+
+def sweep(cases, stream, findings, stats, max_findings=4, collect=None, results=None):
     """run one stream of cases; append findings (shrunk) and update stats"""
-    results = evaluate_cases(cases)
+    if results is None:
+        results = evaluate_cases(cases)
     listed = known_ids()
     nfound = 0
     for case, (res, mline) in zip(cases, results):
+        if collect is not None:
+            collect.append((case, res))
         stats["programs"] += 1
         for op in case["ops"]:
             stats["ops"][op[0]] = stats["ops"].get(op[0], 0) + 1
@@ -1372,8 +1826,7 @@ def explore(ctx):
     rng = random.Random(ctx.seed)
     thorough = ctx.tier == "thorough"
     findings = []
-    stats = {"programs": 0, "evaluations": 0, "compared": 0, "ops": {}, "sizes": {}, "obs": {}, "known_seen": 0,
-             "more_failures_not_shrunk": 0}
+    stats = new_stats()
     main = corpus()
     assert all(valid(c) and not has_trigger(c) for c in main), "corpus must be valid and trigger-free"
     main += exhaustive(4 if thorough else 3)
@@ -1385,6 +1838,16 @@ def explore(ctx):
         main.append(c)
     distinct = {json.dumps(c, sort_keys=True) for c in main}
     nontrivial = {json.dumps(c, sort_keys=True) for c in main if is_nontrivial(c)}
+    # the directed dispatch-failure family runs on labrea next to the main stream (own processes; the cases
+    # and the order of their results do not depend on the scheduling)
+    from concurrent.futures import ThreadPoolExecutor
+    xm = exc_model_cases(ctx.seed, thorough)
+    xd = exc_direct_cases(ctx.seed, thorough)
+    assert all(valid(c) and not has_trigger(c) for c in xm)
+    pool = ThreadPoolExecutor(max_workers=2)
+    fut_xm = pool.submit(run_impl_chunks, xm, 4 if thorough else 2)
+    fut_xd = pool.submit(run_impl_chunks, xd, 6 if thorough else 2)
+    pool.shutdown(wait=False)
     sweep(main, "main", findings, stats)
     # known finding F24: separate stream, every oracle failure must classify to F24
     trig = trigger_corpus() + trigger_random(rng, 300 if thorough else 40)
@@ -1392,24 +1855,73 @@ def explore(ctx):
     tstats = {"programs": 0, "evaluations": 0, "compared": 0, "ops": {}, "sizes": {}, "obs": {}, "known_seen": 0,
               "more_failures_not_shrunk": 0}
     sweep(trig, "set_dispatch-on-warm-cache", findings, tstats, max_findings=3)
+    # directed family: the dispatch evaluation fails with every Exception class, at every position
+    xstats, dstats, coll, per = new_stats(), new_stats(), [], {}
+    dist = {"pos": {}, "form": {}, "trig": {}}
+    # (the direct programs first: their replays are the smallest)
+    sweep_direct(xd, fut_xd.result(), findings, dstats, per, dist, max_findings=2)
+    sweep(xm, "dispatch-failure", findings, xstats, max_findings=2, collect=coll,
+          results=list(zip(fut_xm.result(), run_model(xm))))
+    for c, res in coll:
+        e = per_class_entry(per, c["xrow"])
+        e["programs"] += 1
+        dist["form"][c["disps"][1]["form"]] = dist["form"].get(c["disps"][1]["form"], 0) + 1
+        dist["pos"]["history (model-compared)"] = dist["pos"].get("history (model-compared)", 0) + 1
+        evs = [(k, op) for k, op in enumerate(c["ops"]) if op[0] == "eval"]
+        obs = [o for o in res["obs"].split(" | ") if o.startswith(("val=", "err="))]
+        e["oracle_failures"] += 1 if res["fails"] else 0
+        bad_ops = {f["op"] for f in res["fails"]}
+        if len(evs) != len(obs):
+            raise Infra("C07: %d evaluations, %d observations for %s" % (len(evs), len(obs), c["xrow"]))
+        for (k, op), o in zip(evs, obs):
+            e["evaluations"] += 1
+            if "QX" not in op[2]:
+                e["failing_dispatch_evaluations"] += 1
+                if k not in bad_ops:
+                    e["default_used" if o.startswith("val=") else "evaluation_error"] += 1
+    if set(per) != set(EXC) or not all(e["failing_dispatch_evaluations"] and
+                                       (e["oracle_failures"] or (e["default_used"] and e["evaluation_error"]))
+                                       for e in per.values()):
+        raise Infra("C07: the dispatch-failure family did not cover every row of the exception table")
+    distinct |= {json.dumps(c, sort_keys=True) for c in xm + xd}
+    nontrivial |= {json.dumps(c, sort_keys=True) for c in xm + xd}
     samples = [json.dumps(c["ops"])[:600] for c in (main[1], main[6], main[len(corpus()) + 5], main[-1], trig[0])]
+    samples += [json.dumps({"disps": xm[0]["disps"], "ops": xm[0]["ops"]})[:700], json.dumps(xd[0]), json.dumps(xd[-1])]
+    for st in (xstats, dstats):
+        for k in ("programs", "evaluations", "compared"):
+            stats[k] += st[k]
     cov = {
         "evaluations": stats["evaluations"] + tstats["evaluations"],
         "programs": stats["programs"] + tstats["programs"],
         "distinct_programs": len(distinct),
         "distinct_nontrivial": len(nontrivial),
         "rule": "a history is non-trivial when an evaluation follows a register/overload/implementation "
-                "operation (so the table read at evaluation time is not the one the dataset was created with)",
+                "operation (so the table read at evaluation time is not the one the dataset was created with); "
+                "every program of the dispatch-failure family registers an implementation before evaluating",
         "disagreements_checked": stats["compared"] + tstats["compared"],
         "samples": samples,
         "distribution": {"operations": stats["ops"], "history_sizes": stats["sizes"],
                          "observations": stats["obs"],
                          "trigger_stream": {"programs": tstats["programs"], "observations": tstats["obs"],
-                                            "oracle_failures_attributed_to_F24": tstats["known_seen"]}},
+                                            "oracle_failures_attributed_to_F24": tstats["known_seen"]},
+                         "dispatch_failure_family": {
+                             "what": "a computed dispatch expression fails inside user code with the row's "
+                                     "exception; per_class counts are measured on this run: evaluations whose "
+                                     "dispatch failed, how many of them used the default implementation (or the "
+                                     "enclosing coalesce / switch fallback) and how many ended in an "
+                                     "EvaluationError, as the oracle demands",
+                             "exception_classes": len(per),
+                             "model_compared_histories": xstats["programs"],
+                             "direct_programs": dstats["programs"],
+                             "observations": xstats["obs"],
+                             "positions": dist["pos"], "forms": dist["form"], "triggers": dist["trig"],
+                             "oracle_failures": sum(e["oracle_failures"] for e in per.values()),
+                             "per_class": per}},
         "oracle": "per evaluation: value == callback(selected implementation evaluated directly on a fresh "
                   "object) unless a stored entry is returned; hits keep their dispatch value; callback runs "
                   "exactly once per miss; interface members report one alias; rejected implementations "
-                  "leave every member table unchanged",
+                  "leave every member table unchanged; a failing evaluation fails with an EvaluationError; "
+                  "a dispatch expression that fails (any Exception class) selects the default implementation",
     }
     return Exploration(findings, cov)
 
@@ -1428,8 +1940,28 @@ def failing_input_search(ctx, why):
     return [f for f in findings if f.kind == "failing-input"]
 
 
+def replay_direct(case):
+    (res,) = run_impl([case], want_src=True)
+    if res.get("crash"):
+        print("harness crash:", res["crash"])
+        return 2
+    print("# program built through labrea's public API (REPO=%s); the T<k> are evaluated as listed below:" % REPO)
+    print(res.get("src", ""))
+    print("case        :", json.dumps(case))
+    for k, label, o, exp in res["evals"]:
+        print("  T%d.evaluate(%s)  [%s]  expected %s" % (k, json.dumps(o), label, json.dumps(exp)))
+    print("labrea      :", res["obs"])
+    print("model       : (not in the model's language; its reading of a failing dispatch is the oracle's: the "
+          "default implementation, or an EvaluationError when there is none)")
+    print("oracle fails:", json.dumps(res["fails"], default=repr))
+    print("verdict     :", "STILL FAILS" if res["fails"] else "passes")
+    return 1 if res["fails"] else 0
+
+
 def replay(ctx, payload):
     case = payload["case"]
+    if "x" in case:
+        return replay_direct(case)
     err = lean_build(SPEC.drivers)
     if err:
         print("cannot build drv_iface:", err[-500:])
